@@ -121,6 +121,23 @@ def _oracle(case, r):
     return None
 
 
+def real(case):      # noqa: F811
+    if case['kind'] == 'sources':
+        from props import c11
+        return c11.real(case)
+    return muxprop.real(case)
+
+
+def shrink_candidates(case):      # noqa: F811
+    if case['kind'] == 'sources':
+        from props import c11
+        for c in c11.shrink_candidates(case):
+            yield c
+        return
+    for c in muxprop.shrink_candidates(case):
+        yield c
+
+
 def model_cmds(case):      # noqa: F811
     return [] if case.get('no_model') else muxprop.model_cmds(case)
 
@@ -150,10 +167,19 @@ def cases(tier, rng):
     """every case of `_cases`, and for a fraction of the mux/plain ones the same case run as the SECOND subscription of
     its pipeline object (after an earlier subscription that completed, failed or was disposed)"""
     pr = rng.sub('resubscription')
-    return muxprop.with_preludes(_cases(tier, rng), pr)
+    # several source graphs sharing one store (with_memory_store(sources=[…])), each with stateful operators: the states of one
+    # graph do not depend on the items of another (generator and oracle shared with C11)
+    from props import c11
+    for c in c11._sources_cases(tier, rng.sub('sources')):
+        yield c
+    for c in muxprop.with_preludes(_cases(tier, rng), pr):
+        yield c
 
 
 def oracle(case, r):
+    if case['kind'] == 'sources':
+        from props import c11
+        return c11.sources_violation(case, r)
     v = muxprop.prelude_violation(case, r)
     if v or case.get('share'):
         return v        # the shared-operator variant wraps the pipeline in a tee_map: judged against separately built operators only
